@@ -114,3 +114,9 @@ Proof.
     + destruct (Nat.leb (flen b) d); destruct H as [H|H]; try discriminate; exact (IH _ _ H).
   - destruct H as [H|H]; [discriminate|exact (IH _ _ H)].
 Qed.
+
+Lemma copy_into_same (view data : list (list Z)) : length view = length data -> copy_into view data = data.
+Proof.
+  revert data; induction view as [|v vs IH]; intros [|d ds] H; simpl in *; try discriminate; [reflexivity|].
+  f_equal. apply IH. lia.
+Qed.
